@@ -66,6 +66,7 @@ def queries(tier, prop='C05'):
             for e in ALL:
                 if e in STATELESS and i != 0: continue
                 if tier == 'quick' and e in ERASE and cap >= 16 and na > 2: continue   # rotate over 16 characters with symbolic positions: thorough tier only
+                if e in ERASE and cap >= 15 and na > 8: continue   # rotate over 15+ characters with symbolic positions: 2-7 min per query, not run
                 valid, reach = shape(e, cap, na, nb, OPEN, tscap)
                 if ub and (not valid or e in REPL): continue   # replace: memory-unsafe for wrapping pos + count (C04_replace_keeps_size, listed for C02 by harness/istr_step)
                 # loops of the string algorithms run over the characters present; fills / strlen over the capacity; to_string over the digits
@@ -84,7 +85,7 @@ BOUNDS = {
     'quick': 'basic_inplace_string<char,7> (size kept in the last byte) with pre-sizes {0,1,3,7} under TETL_ENABLE_CONTRACT_CHECKS and basic_inplace_string<char,16> (separate size member) with pre-sizes {2,16} (erase: 2 only) under _SAFE; '
              'all characters (incl. NUL) and the object bytes before construction symbolic; counts / lengths / indices any 64-bit value, iterators begin() + pos with pos in [-2^20, 2^20], C strings of symbolic length 0..CAP+1, '
              'second string / source of replace: 2 (3) characters; to_string<4>(int) and to_string<11>(int) for every int. ' + _note('quick'),
-    'thorough': 'capacities {1,3,7,15,16,20} with pre-sizes {0,1,mid,CAP} (all of 0..7 for capacity 7), both contract configurations, to_string capacities {2,3,4,11,12,13}. ' + _note('thorough'),
+    'thorough': 'capacities {1,3,7,15,16,20} with pre-sizes {0,1,mid,CAP} (all of 0..7 for capacity 7; erase at capacity >= 15 only from pre-sizes <= 8), both contract configurations, to_string capacities {2,3,4,11,12,13}. ' + _note('thorough'),
 }
 ASSUMPTIONS = [
     'C05/str: documented preconditions: constructors/assign/operator=(ptr): resulting length <= capacity; front/back/pop_back non-empty; push_back size() < capacity(); '
